@@ -138,6 +138,20 @@ func (c *client) PushBlob(ctx context.Context, repo string, desc ociregistry.Des
 	if desc.Size > 0 && (req.Body == nil || req.Body == http.NoBody) {
 		return ociregistry.Descriptor{}, fmt.Errorf("content is empty but the descriptor has size %d: %w", desc.Size, ociregistry.ErrSizeInvalid)
 	}
+	if desc.Size > 0 {
+		// net/http notices content longer than ContentLength only after it
+		// has sent ContentLength bytes of it: the server has then received a
+		// complete request holding a prefix of the content. Refuse content of
+		// a known different length here, and deliver the last byte of content
+		// of unknown length only when nothing follows it.
+		if req.GetBody != nil {
+			if req.ContentLength != desc.Size {
+				return ociregistry.Descriptor{}, fmt.Errorf("content has length %d but the descriptor has size %d: %w", req.ContentLength, desc.Size, ociregistry.ErrSizeInvalid)
+			}
+		} else {
+			req.Body = &exactSizeBody{ReadCloser: req.Body, n: desc.Size}
+		}
+	}
 	req.URL = urlWithDigest(location, string(desc.Digest))
 	req.ContentLength = desc.Size
 	req.Header.Set("Content-Type", "application/octet-stream")
@@ -150,6 +164,43 @@ func (c *client) PushBlob(ctx context.Context, repo string, desc ociregistry.Des
 	defer closeOnError(&_err, resp.Body)
 	resp.Body.Close()
 	return desc, nil
+}
+
+// exactSizeBody delivers the first n bytes of the content it wraps,
+// and fails instead of delivering the n-th byte when more content follows it.
+type exactSizeBody struct {
+	io.ReadCloser
+	n int64 // bytes still to deliver
+}
+
+func (b *exactSizeBody) Read(p []byte) (int, error) {
+	if len(p) == 0 {
+		return 0, nil
+	}
+	if b.n <= 0 {
+		return 0, io.EOF
+	}
+	if b.n == 1 {
+		var buf [2]byte
+		n, err := io.ReadFull(b.ReadCloser, buf[:])
+		switch {
+		case n == 2:
+			return 0, fmt.Errorf("content is larger than the size in the descriptor: %w", ociregistry.ErrSizeInvalid)
+		case n == 1 && err == io.ErrUnexpectedEOF:
+			p[0] = buf[0]
+			b.n = 0
+			return 1, nil
+		case err == io.ErrUnexpectedEOF:
+			err = io.EOF
+		}
+		return 0, err
+	}
+	if int64(len(p)) > b.n-1 {
+		p = p[:b.n-1]
+	}
+	n, err := b.ReadCloser.Read(p)
+	b.n -= int64(n)
+	return n, err
 }
 
 // TODO is this a reasonable default? We have to
